@@ -104,7 +104,7 @@ fn gen_call(r: &mut Rng, t: &TableSpec, invalid: bool) -> Call {
             3 => { if matches!(f, "count" | "sum" | "avg") { args_sql = format!("DISTINCT {}", args_sql); refuse = true; tags.push("inv:distinct".into()); } }
             4 => { // RANGE offset over a string key
                 let strs = cols_of(t, |c| matches!(c, ColTy::Str | ColTy::Bool));
-                if framed && !strs.is_empty() { order = vec![Key { col: *r.pick(&strs), desc: false, nf: None }]; frame = Some((true, (1, 1), (2, 0))); tags.push("inv:range_str".into()); }
+                if framed && !strs.is_empty() { order = vec![Key { col: *r.pick(&strs), desc: false, nf: None }]; frame = Some((true, (1, 1), (2, 0))); refuse = true; tags.push("inv:range_str".into()); }
             }
             5 => { if framed && any.len() >= 1 { order = vec![Key { col: any[0], desc: false, nf: None }, Key { col: 0, desc: false, nf: None }]; frame = Some((true, (1, 1), (3, 1))); tags.push("inv:range_two_keys".into()); } }
             6 => { if f == "ntile" { let b = *r.pick(&[0i64, -3]); args_sql = b.to_string(); args = vec![if b < 0 { json!({"un": ["neg", lit(-b)]}) } else { lit(b) }]; tags.push("inv:ntile_nonpos".into()); } }
